@@ -1102,6 +1102,8 @@ def op_cat(rng, cur, obs, spec, partname=None):
                 return lambda x: f(x) + tv
             hs = Fn(hb, hs.reals, hat)
             ho = Obs(h)
+            if not hexact:      # compressed part: Tensor + shift was added in float, use what is stored
+                hs = Fn(hb, hs.reals, fn_of_obs(ho).at)
             hdesc = dict(hdesc, mixture=dict(tensor_inputs=tin, tensor=tdata.tolist(), tensor_first=tfirst))
         parts.append((h, hs, ho, hexact, hdesc))
     pos = rng.randrange(nparts + 1)
@@ -1366,6 +1368,8 @@ def run_case(env, case_seed, tier, counts, stream="clean", sibling=False):
         return subs_order_case(env, case_seed, tier, counts)
     if stream == "affine-reuse":
         return affine_reuse_case(env, case_seed, tier, counts)
+    if stream == "rules":
+        return rules_case(env, case_seed, tier, counts)
     rng = random.Random(case_seed)
     order = gen_signature(rng)
     if sibling:
@@ -1699,6 +1703,59 @@ def affine_reuse_case(env, case_seed, tier, counts):
     return nsteps, (case_seed, "affine-reuse"), dict(case_seed=case_seed, ops=["affine-reuse"], steps=nsteps)
 
 
+def rules_case(env, case_seed, tier, counts):
+    """Direct constructions for pattern rules the chains never fire: the `compress_gaussians` interpretation
+    (gaussian._compress_gaussians: QR-compress every Gaussian with rank > dim) and Gaussian - Gaussian
+    (gaussian.eager_sub, a lazy difference: checked through its value at points)."""
+    from funsor.interpretations import compress_gaussians
+    rng = random.Random(case_seed)
+    order = gen_signature(rng, max_dim=5)
+    dim = sum(numel(sh) for kind, _, sh in order if kind == "r")
+    history = []
+    n = 0
+    try:
+        with compress_gaussians:
+            g, spec, exact, desc = make_gaussian(rng, order, rank=rng.randint(dim + 1, 2 * dim))
+        desc = dict(desc, op="compress_gaussians")
+        history = [desc]
+        check_step(env, rng, g, dict(spec=spec, desc=desc, model=None), False, counts)
+        counts("rules:compress_gaussians")
+        n += 1
+        # Gaussian - Gaussian
+        g1, s1, e1, d1 = make_gaussian(rng, order, rank=rng.randint(0, 2 * dim))
+        sub = [o for o in order if o[0] == "b" or rng.random() < 0.7]
+        if not any(o[0] == "r" for o in sub):
+            sub = list(order)
+        rng.shuffle(sub)
+        sdim = sum(numel(sh) for kind, _, sh in sub if kind == "r")
+        g2, s2, e2, d2 = make_gaussian(rng, sub, rank=rng.randint(0, 2 * sdim))
+        history = [d1, dict(d2, op="minus-gaussian")]
+        diff = g1 - g2
+        x = gen_point(rng, s1.reals)
+        xf = {k: [F(float(v)) for v in np.asarray(a).reshape(-1)] for k, a in x.items()}
+        try:
+            val = diff(**{k: Tensor(a) for k, a in x.items()})
+            tab = value_table(val, s1.batch)
+        except Declined:
+            counts("rules:sub:lazy")
+            return n, None, None
+        tol = 0 if (e1 and e2) else RTOL
+        for p in batch_points(s1.batch, rng):
+            want = s1.at(p)(xf) - s2.at(sub_point(p, s2.batch))({k: xf[k] for k in s2.reals})
+            v = tab(p)
+            if not close(F(float(v)), want, tol, abs(float(want))):
+                raise CaseFail("C12.sub-eval-ne-quadratic", expected=str(want), got=str(F(float(v))), point=p,
+                               x={k: a.tolist() for k, a in x.items()})
+        counts("rules:sub")
+        n += 1
+    except Declined as e:
+        counts(f"rules:declined:{e}")
+    except CaseFail as cf:
+        cf.kw["witness"] = dict(case_seed=case_seed, stream="rules", tier=tier, history=history)
+        raise
+    return n, (case_seed, "rules"), dict(case_seed=case_seed, ops=["compress_gaussians", "sub"])
+
+
 def history_stream(ctx, env, n):
     """History-independence: a chain A, then a sibling chain B over the same ordered input names with the block
     sizes rotated, then A again — every step checked against its spec as usual, and the second run of A must
@@ -1758,7 +1815,59 @@ def finding_stream(ctx, env, key, n):
         report(ctx, first, key)
 
 
+class RuleMonitor:
+    """Run-time census of the pattern rules whose signatures mention Gaussian / GaussianMixture (registries of every
+    DispatchedInterpretation, rules defined in cnf / joint / gaussian / integrate), and which of them the streams
+    actually fire (wrapper around each interpretation's `dispatch` instance attribute; no change to /repo)."""
+    MODULES = ("funsor.cnf", "funsor.joint", "funsor.gaussian", "funsor.integrate")
+
+    def __init__(self):
+        import funsor.interpretations as I
+        self.interps = {n: o for n, o in vars(I).items() if isinstance(o, I.DispatchedInterpretation)}
+        self.rules = {}
+        self.fired = {}
+        self._orig = {}
+        for iname, interp in self.interps.items():
+            for cls, disp in interp.registry.registry.items():
+                for sig, fn in getattr(disp, "funcs", {}).items():
+                    mod = getattr(fn, "__module__", "")
+                    if mod in self.MODULES and ("Gaussian" in repr(sig) or getattr(cls, "__name__", "") == "Gaussian"):
+                        self.rules[id(fn)] = f"{iname}:{mod.split('.')[-1]}.{fn.__name__}@{fn.__code__.co_firstlineno}"
+
+    def __enter__(self):
+        for iname, interp in self.interps.items():
+            orig = interp.dispatch
+            self._orig[iname] = orig
+
+            def wrapped(*args, _orig=orig):
+                fn = _orig(*args)
+                k = id(fn)
+                if k in self.rules:
+                    self.fired[k] = self.fired.get(k, 0) + 1
+                return fn
+            interp.dispatch = wrapped
+        return self
+
+    def __exit__(self, *exc):
+        for iname, interp in self.interps.items():
+            interp.dispatch = self._orig[iname]
+
+    def report(self):
+        names = sorted(set(self.rules.values()))
+        fired = sorted({self.rules[k] for k in self.fired})
+        return dict(registered=len(names), fired=fired, never_fired=[n for n in names if n not in fired],
+                    firings={self.rules[k]: v for k, v in sorted(self.fired.items(), key=lambda kv: self.rules[kv[0]])})
+
+
 def correspond(ctx, use_driver=True, volume=None):
+    with RuleMonitor() as mon:
+        try:
+            _correspond(ctx, use_driver, volume)
+        finally:
+            ctx.extra["gaussian_rules"] = mon.report()
+
+
+def _correspond(ctx, use_driver=True, volume=None):
     ctx.rule = ("chains of depth 1-3 over random Gaussians: 1-3 real inputs of shapes () (1,) (2,) (3,) (1,2) (2,2), "
                 "0-2 batch inputs of sizes 1-3 in interleaved order, rank 0..2*dim+1 (duplicate columns / zero rows "
                 "for rank deficiency), dyadic parameters; constructors from (mean|info_vec|white_vec) x "
@@ -1793,6 +1902,15 @@ def correspond(ctx, use_driver=True, volume=None):
         if nsteps:
             ctx.case(sample=sample, nontrivial_key=key)
     history_stream(ctx, env, 40 if ctx.tier == "quick" else 800)
+    for _ in range(30 if ctx.tier == "quick" else 500):
+        seed = ctx.rng.getrandbits(48)
+        try:
+            nsteps, key, sample = run_case(env, seed, ctx.tier, ctx.count, stream="rules")
+        except CaseFail as cf:
+            report(ctx, cf, "rules")
+            continue
+        if nsteps:
+            ctx.case(sample=sample, nontrivial_key=key)
     for _ in range(40 if ctx.tier == "quick" else 500):
         seed = ctx.rng.getrandbits(48)
         try:
